@@ -36,7 +36,7 @@ class C18(Prop):
     required_theorems = ['C18_parse_format', 'C18_format_len', 'C18_shortest', 'C18_trichotomy_incomplete', 'C18_prefix_stable',
                          'C18_reencode', 'C18_frame_len', 'C18_encoders_agree']
     engine_desc = 'E1 FrameHeader::parse/format/len, Frame::format, Frame::len, FrameSocket::write (format_into_buf) vs Header.v/Frame.v'
-    rule = ('HP: all 65536 values of the first two bytes x extended-length values {0,1,125,126,127,65535,65536,2^32-1,2^32,2^63-1,2^63,2^64-1} x key x truncation points; '
+    rule = ('HP: all 65536 values of the first two bytes x extended-length values {0,1,125,126,127,65535,65536,2^32-1,2^32,2^63-1,2^63,2^64-1} x key x truncation points, also from a cursor standing at a non-zero position; '
             'HF: 16 flag combinations x 16 opcode nibbles x {no key, 4 keys} x the length set; FF: frames through both encoders behind prefixes 0,2..9; '
             'distinct by input bytes; every case exercises the codec (non-trivial)')
     level_text = ('9 theorems (round trip, canonical/shortest form, trichotomy, prefix stability, re-encoding, frame_len, encoders agree) proved for every header, '
@@ -75,6 +75,9 @@ class C18(Prop):
                 body = bytes([b0, b1]) + ((n % (1 << (8 * ext))).to_bytes(ext, 'big') if ext else b'') + (KEYS[0] if b1 & 0x80 else b'')
                 for t in range(0, len(body) + 1):
                     out.append('HP t%d %s' % (k, ws.hx(body[:t]))); k += 1
+                    if t in (1, 2, len(body) - 1, len(body)):
+                        # the same header decoded from a cursor that already stands `off` bytes into its buffer
+                        out.append('HP o%d %s %d' % (k, ws.hx(body[:t]), rng.choice([1, 2, 3, 14, 15, 100]))); k += 1
         for fl in range(16):
             flags = format(fl, '04b')
             for opc in range(16):
